@@ -31,6 +31,31 @@ pub struct Rec {
     pub inner: tx3_cardano::Compiler,
     pub log: Vec<PassRec>,
     pub payload_ids: HashMap<Vec<u8>, u64>,
+    /// UTxOs that two input blocks of one pass both hold (pass number, reference)
+    pub overlaps: Vec<(usize, String)>,
+}
+
+fn block_overlaps(t: &AnyTir) -> Vec<String> {
+    let AnyTir::V1Beta0(tx) = t;
+    let mut seen: HashMap<(Vec<u8>, u32), String> = HashMap::new();
+    let mut out = vec![];
+    for input in tx.inputs.iter() {
+        let refs: Vec<(Vec<u8>, u32)> = match &input.utxos {
+            tir::Expression::UtxoSet(set) => set.iter().map(|u| (u.r#ref.txid.clone(), u.r#ref.index)).collect(),
+            tir::Expression::UtxoRefs(v) => v.iter().map(|r| (r.txid.clone(), r.index)).collect(),
+            _ => vec![],
+        };
+        for rf in refs {
+            if let Some(other) = seen.get(&rf) {
+                if other != &input.name {
+                    out.push(format!("{}#{} in blocks {} and {}", hex::encode(&rf.0), rf.1, other, input.name));
+                }
+            } else {
+                seen.insert(rf, input.name.clone());
+            }
+        }
+    }
+    out
 }
 
 fn fee_in_of(t: &AnyTir) -> i128 {
@@ -51,6 +76,8 @@ impl CompilerTrait for Rec {
 
     fn compile(&mut self, t: &AnyTir) -> Result<CompiledTx, CompileError> {
         let fee_in = fee_in_of(t);
+        let pass = self.log.len();
+        self.overlaps.extend(block_overlaps(t).into_iter().map(|x| (pass, x)));
         let r = self.inner.compile(t);
         match &r {
             Ok(c) => {
@@ -98,6 +125,7 @@ pub fn new_rec(pp: &PP) -> Rec {
         ),
         log: vec![],
         payload_ids: HashMap::new(),
+        overlaps: vec![],
     }
 }
 
@@ -362,8 +390,10 @@ pub fn run_c20(ctx: &mut Ctx) {
         for _ in 0..hlen {
             let (k, e, t) = r.pick(&pool).clone();
             // succeeding or failing: a store that may hold too little
-            let amt = if r.chance(1, 4) { 1000 } else { 5_000_000 + r.below(50_000_000) as i128 };
-            history.push((k, e, t, amt, *r.pick(&[1_000_000i128, 2_000_000])));
+            // ... or just too little for the fee: the first pass (fee 0) compiles, a later one fails
+            let hq = *r.pick(&[1_000_000i128, 2_000_000]);
+            let amt = match r.below(8) { 0 | 1 => 1000, 2 | 3 => hq + r.below(150_000) as i128, _ => 5_000_000 + r.below(50_000_000) as i128 };
+            history.push((k, e, t, amt, hq));
         }
         // targets are biased towards min_utxo templates
         let (tk, te, target) = loop {
@@ -433,4 +463,41 @@ pub fn run_c20(ctx: &mut Ctx) {
         "rule".into(),
         serde_json::json!("histories of 0..4 earlier resolutions (8 template kinds - among them a threshold that reads min_utxo and a first output with a 3000-byte datum - x 0..3 extra outputs, succeeding or failing for lack of funds; tight wallets for the threshold template) on one compiler instance, then a target template (biased to ones using min_utxo); outcome (payload bytes, hash, fee, or error variant / panic) compared with a fresh identically configured instance; distinct = distinct (history shape, target, outcomes)"),
     );
+}
+
+/// C04 through the whole of resolve_tx: templates with two or three input blocks on one wallet, some
+/// thresholds depending on the fee and some not, resolved over several fee passes; in every pass
+/// the blocks handed to the compiler must hold disjoint UTxOs.
+pub fn c04_loop_probe(r: &mut Rng, n: usize) -> (Vec<serde_json::Value>, BTreeMap<String, u64>) {
+    let mut out = vec![];
+    let mut hist: BTreeMap<String, u64> = BTreeMap::new();
+    let blocks = |k: u64| -> String {
+        let head = "party Sender;\nparty Receiver;\n\ntx t(quantity: Int) {\n";
+        let body = match k {
+            0 => "    input a {\n        from: Sender,\n        min_amount: Ada(3000000),\n    }\n    input b {\n        from: Sender,\n        min_amount: Ada(quantity) + fees,\n    }\n    output {\n        to: Receiver,\n        amount: a + b - fees,\n    }\n",
+            1 => "    input a {\n        from: Sender,\n        min_amount: Ada(quantity) + fees,\n    }\n    input b {\n        from: Sender,\n        min_amount: Ada(3000000),\n    }\n    output {\n        to: Receiver,\n        amount: a + b - fees,\n    }\n",
+            2 => "    input a {\n        from: Sender,\n        min_amount: Ada(3000000),\n    }\n    input* b {\n        from: Sender,\n        min_amount: Ada(quantity) + fees,\n    }\n    input c {\n        from: Sender,\n        min_amount: Ada(1000000),\n    }\n    output {\n        to: Receiver,\n        amount: a + b + c - fees,\n    }\n",
+            _ => "    input a {\n        from: Sender,\n    }\n    input b {\n        from: Sender,\n        min_amount: fees,\n    }\n    output {\n        to: Receiver,\n        amount: a + b - fees,\n    }\n",
+        };
+        format!("{}{}}}\n", head, body)
+    };
+    let templates: Vec<Option<tir::Tx>> = (0..4).map(|k| lower_src(&blocks(k), "t")).collect();
+    for _ in 0..n {
+        let k = r.below(4) as usize;
+        let Some(tx) = &templates[k] else { continue };
+        let pp = PP { coef: *r.pick(&[44u64, 1, 500]), constant: *r.pick(&[155381u64, 2]), extra: *r.pick(&[None, Some(0)]), coins: 4310, mainnet: false };
+        let n_utxos = 2 + r.below(4);
+        let amounts: Vec<i128> = (0..n_utxos).map(|_| 2_000_000 + r.below(9_000_000) as i128).collect();
+        let store = sender_store(r, &amounts);
+        let mut rec = new_rec(&pp);
+        let q = *r.pick(&[1_000_000i128, 2_000_000, 4_000_000]);
+        let o = resolve_with(&mut rec, tx, &std_args(q), &store, *r.pick(&[0usize, 3, 10]));
+        *hist.entry(format!("loop_kind_{}_passes_{}", o.kind, rec.log.len().min(6))).or_default() += 1;
+        if !rec.overlaps.is_empty() && out.len() < 10 {
+            out.push(serde_json::json!({"index": -1, "ids": [108], "what": "two input blocks of one resolve_tx pass hold the same UTxO",
+                "template": blocks(k as u64), "quantity": q.to_string(), "utxo_lovelace": amounts.iter().map(|a| a.to_string()).collect::<Vec<_>>(),
+                "overlaps": rec.overlaps.iter().map(|(p, x)| format!("pass {}: {}", p, x)).collect::<Vec<_>>()}));
+        }
+    }
+    (out, hist)
 }
